@@ -57,8 +57,22 @@ type PathEnum struct {
 	Rows    []PathRow
 	Unknown []ssa.Value
 
-	cur *Frame
-	env *boolEnv
+	cur  *Frame
+	env  *boolEnv
+	vals map[ssa.Value]ssa.Value // results of inlined helpers on the current path
+}
+
+// V resolves a value through the results of helpers inlined on this path
+// (e.g. `return rt.helper(...)` yields what the helper returned).
+func (pe *PathEnum) V(v ssa.Value) ssa.Value {
+	for i := 0; i < 8; i++ {
+		if rv, ok := pe.vals[v]; ok && rv != nil {
+			v = rv
+			continue
+		}
+		return v
+	}
+	return v
 }
 
 // C canonicalises a value seen in the current (possibly inlined) frame.
@@ -91,6 +105,7 @@ func (pe *PathEnum) Run(fn *ssa.Function) {
 		return
 	}
 	pe.env = newBoolEnv()
+	pe.vals = map[ssa.Value]ssa.Value{}
 	onPath := map[peBlockKey]bool{}
 	facts := map[string]bool{}
 	var order []string
@@ -256,7 +271,29 @@ func (pe *PathEnum) Run(fn *ssa.Function) {
 			if fr.call != nil && resume != nil {
 				m := pe.env.mark()
 				pe.env.bindResults(fr, x)
+				results := retResults(x)
+				saved := map[ssa.Value]ssa.Value{}
+				setVal := func(target, rv ssa.Value) {
+					saved[target] = pe.vals[target]
+					pe.vals[target] = fr.Canon(pe.V(rv))
+				}
+				if len(results) == 1 {
+					setVal(fr.call, results[0])
+				} else {
+					for _, ref := range *fr.call.Referrers() {
+						if ex, ok := ref.(*ssa.Extract); ok && ex.Index < len(results) {
+							setVal(ex, results[ex.Index])
+						}
+					}
+				}
 				resume()
+				for k, v := range saved {
+					if v == nil {
+						delete(pe.vals, k)
+					} else {
+						pe.vals[k] = v
+					}
+				}
 				pe.env.rollback(m)
 				return
 			}
